@@ -153,7 +153,7 @@ Theorem import_simple_mux : forall env st mpos dm mid dmx st' sigs,
   let mstart := get_start_bit dmx in
   let msize := ds_size dmx in
   (exists mx, In mx sigs /\ s_id mx = mid /\ s_name mx = ds_name dmx /\ s_kind mx = KMux /\ s_parent mx = None /\
-              s_rel mx = mstart /\ s_gcount mx = calc_value_from_size msize /\ msize <> 0 /\ 0 < s_gsize mx /\
+              s_rel mx = mstart /\ s_gcount mx = calc_value_from_size msize /\ msize <> 0 /\ 0 < s_gcount mx /\ 0 < s_gsize mx /\
               s_desc mx = sig_comment env (dm_id dm) (ds_name dmx)) /\
   forall id ds, In (id, ds) (index_from 0 (sorted_signals dm)) -> id <> mid ->
     exists s, In s sigs /\ s_id s = id /\ base_faithful env (dm_id dm) ds s /\
@@ -270,7 +270,7 @@ Definition simple_mux_faithful (env : ienv) (dm : dmessage) (sigs : list signal)
   let mstart := get_start_bit dmx in
   let msize := ds_size dmx in
   (exists mx, In mx sigs /\ s_id mx = mid /\ s_name mx = ds_name dmx /\ s_kind mx = KMux /\ s_parent mx = None /\
-              s_rel mx = mstart /\ s_gcount mx = calc_value_from_size msize /\ msize <> 0 /\ 0 < s_gsize mx /\
+              s_rel mx = mstart /\ s_gcount mx = calc_value_from_size msize /\ msize <> 0 /\ 0 < s_gcount mx /\ 0 < s_gsize mx /\
               s_desc mx = sig_comment env (dm_id dm) (ds_name dmx)) /\
   forall id ds, In (id, ds) (index_from 0 (sorted_signals dm)) -> id <> mid ->
     exists s, In s sigs /\ s_id s = id /\ base_faithful env (dm_id dm) ds s /\
